@@ -2,7 +2,7 @@
    step execution of execution.go:54-265 as a depth-first (hence causally ordered) sequential skeleton.
    Downstream services are spec-conformant executors (Gql/RefExec.v) over their own schema and the shared data graph,
    optionally overridden by a fault assignment. *)
-From V Require Import Base.Util Gql.Ast Gql.RefExec Model.Perm Model.SkipInclude Model.PermFilter Model.Plan Model.MergeRes Model.Shape.
+From V Require Import Base.Util Gql.Ast Gql.RefExec Model.Perm Model.SkipInclude Model.PermFilter Model.Plan Model.MergeRes Model.Shape Model.FormatDoc.
 
 Record generation := {
   g_schema : schema;
@@ -104,14 +104,24 @@ Section Run.
                            | None => Err ("could not find BoundaryFieldsMap entry for typeName " +++ parent)
                            end
               end ;;
-      let rq := {| rq_url := url; rq_optype := OQuery; rq_parent := parent; rq_sel := ss; rq_ids := ids; rq_lookup := Some l |} in
+      (* what is printed and lexed back: string literals through strconv.Quote and the whitespace collapse, ids through %q *)
+      let wired := match wire_ss true ss, wire_ids ids with Some ss', Some ids' => Some (ss', ids') | _, _ => None end in
+      let rq := {| rq_url := url; rq_optype := OQuery; rq_parent := parent;
+                   rq_sel := match wired with Some w => fst w | None => [] end;
+                   rq_ids := match wired with Some w => snd w | None => ids end; rq_lookup := Some l |} in
       let a1 := {| a_results := a_results a; a_requests := a_requests a ++ [rq]; a_errors := a_errors a; a_count := count |} in
       let unwrap := fun (d : raw) =>
         match d with
         | RMap m => if lk_array l then match lookup "_result" m with Some (RArr items) => items | _ => [] end
                     else map snd m
         | _ => [] end in
-      match call rq "Query" (lookup_doc l ss ids) with
+      match match wired with
+            | Some w => call rq "Query" (lookup_doc l (fst w) (snd w))
+            | None => match w_fault W rq with                    (* the document does not lex: the service rejects it *)
+                      | Some FTimeout => RpFail ETimeout
+                      | Some FStatus | Some FTransport | Some FTooLarge | Some FBadJSON => RpFail EOther
+                      | _ => RpErrors [{| xe_msg := "syntax"; xe_path := [] |}] RNil end
+            end with
       | RpFail k =>
           Ok {| a_results := a_results a1 ++ [{| er_url := url; er_ip := ip; er_data := RArr [] |}]; a_requests := a_requests a1;
                 a_errors := a_errors a1 ++ [{| ge_kind := k; ge_path := step_error_path ip ss; ge_service := true |}]; a_count := count |}
@@ -146,9 +156,17 @@ Section Run.
         Ok {| a_results := a_results a ++ [{| er_url := url; er_ip := []; er_data := RMap (flat_map (tn_sel parent) ss) |}];
               a_requests := a_requests a; a_errors := a_errors a; a_count := a_count a |}
       else
-      let rq := {| rq_url := url; rq_optype := opkind_of_root parent; rq_parent := parent; rq_sel := ss; rq_ids := []; rq_lookup := None |} in
+      let wired := wire_ss false ss in
+      let rq := {| rq_url := url; rq_optype := opkind_of_root parent; rq_parent := parent;
+                   rq_sel := match wired with Some w => w | None => [] end; rq_ids := []; rq_lookup := None |} in
       let a1 := {| a_results := a_results a; a_requests := a_requests a ++ [rq]; a_errors := a_errors a; a_count := a_count a |} in
-      match call rq parent ss with
+      match match wired with
+            | Some w => call rq parent w
+            | None => match w_fault W rq with
+                      | Some FTimeout => RpFail ETimeout
+                      | Some FStatus | Some FTransport | Some FTooLarge | Some FBadJSON => RpFail EOther
+                      | _ => RpErrors [{| xe_msg := "syntax"; xe_path := [] |}] RNil end
+            end with
       | RpFail k =>
           Ok {| a_results := a_results a1 ++ [{| er_url := url; er_ip := ip; er_data := RNil |}]; a_requests := a_requests a1;
                 a_errors := a_errors a1 ++ [{| ge_kind := k; ge_path := step_error_path ip ss; ge_service := true |}]; a_count := a_count a1 |}
